@@ -27,16 +27,17 @@ KF_EXP = "C04-ascii-3digit-negative-exponent"
 
 META = dict(
     level="other",
-    stubs=["layout kernel: the matrix is an object with a symbolic .shape; _write_*_header / _write_*_bigmat of the instance record the call and stop",
+    stubs=["sparse-input kernel: scipy.sparse -> a triplet matrix object; sp.find -> its documented result (indices and values of the non-zero elements, repeated positions summed)",
+           "layout kernel: the matrix is an object with a symbolic .shape; _write_*_header / _write_*_bigmat of the instance record the call and stop",
            "file object -> symbolic record stream; struct -> field-typed stand-in that records a range obligation for every symbolic integer packed into a fixed-width field",
            "`x.dtype = float` on symbolic real data -> no-op (AST hook setdtype)", "np.zeros/np.any/np.fromfile -> object-array versions",
            "scipy.sparse.coo_matrix constructor -> raw (I, J, V) triple",
            "CPython '%W.PE' formatting -> exact scaled-integer rounding into symbolic digits (validated in C12)"],
-    outside=["bit patterns of struct.pack('d') (CPython)", "complex matrices and scipy.sparse inputs (dtype reinterpretation / scipy internals)", "byte-order handling beyond what the reader checks in C11",
+    outside=["bit patterns of struct.pack('d') (CPython)", "complex matrices (dtype reinterpretation); scipy.sparse inputs other than through the documented meaning of sp.issparse / sp.find / tocoo on a triplet matrix (SciPy's own code is not executed)", "byte-order handling beyond what the reader checks in C11",
              "whole ASCII files written by pyYeti (the ASCII kernels cover the number field format and its parse-back and the writers' layout choice by row count; "
              "the ASCII readers are decided against an independent encoder in C11)"],
     assumptions=["matrices of 3-4 rows x 2 columns with a symbolic sparsity pattern and symbolic real values; 1-2 matrices per file"],
-    reach_required=["layout-bigmat", "layout-nonbigmat", "dense", "bigmat", "nonbigmat", "two-matrices", "empty-column", "all-zero", "IS-arith", "colstats", "ascii-field", "ascii-3digit"],
+    reach_required=["sparse-input", "layout-bigmat", "layout-nonbigmat", "dense", "bigmat", "nonbigmat", "two-matrices", "empty-column", "all-zero", "IS-arith", "colstats", "ascii-field", "ascii-3digit"],
     trusted_base=["z3 5.1", "CPython 3.12", "the digit-string float-format model (see C12)"],
 )
 
@@ -504,13 +505,125 @@ def replay_layout(p):
         shutil.rmtree(d, ignore_errors=True)
 
 
-REPLAY = {"layout": replay_layout, "roundtrip": replay_roundtrip, "IS": replay_is, "colstats": replay_colstats, "ascii": replay_ascii}
+# ---------------------------------------------------------------------------
+# K6: scipy.sparse input - a COO matrix given by triplets that may repeat a position (the finite-element assembly idiom)
+# is written as the matrix it denotes (repeated entries add up)
+
+class FakeCOO:
+    """stands for scipy.sparse.coo_matrix((data, (row, col)), shape) as built, i.e. without summed duplicates"""
+
+    def __init__(self, shape, row, col, data):
+        self.shape, self.row, self.col, self.data = shape, np.array(row), np.array(col), data
+        self.nnz = len(row)
+
+    def tocoo(self, copy=False):
+        return self
+
+
+class FakeSP:
+    """the two scipy.sparse functions op4._ensure_2d_dp may use, by their documented meaning"""
+
+    @staticmethod
+    def issparse(m):
+        return isinstance(m, FakeCOO)
+
+    @staticmethod
+    def find(m):
+        # "Return the indices and values of the nonzero elements of a matrix": duplicates are summed, zeros dropped
+        eng = S.eng()
+        tot = {}
+        for r, c, v in zip(m.row, m.col, m.data):
+            tot[(int(r), int(c))] = tot[(int(r), int(c))] + v if (int(r), int(c)) in tot else v
+        keep = [(k, v) for k, v in sorted(tot.items(), key=lambda kv: (kv[0][1], kv[0][0])) if eng.decide(S.lift(v) != 0)]
+        V = np.empty(len(keep), dtype=object)
+        for i, (_, v) in enumerate(keep):
+            V[i] = v
+        return np.array([k[0] for k, _ in keep], dtype=int), np.array([k[1] for k, _ in keep], dtype=int), V
+
+
+SPARSE_IN = [((3, 2), [(0, 0), (2, 0), (0, 0), (1, 1), (2, 0)]), ((4, 1), [(1, 0), (2, 0), (1, 0)])]
+
+
+def sparsein_fn(layout, case):
+    def fn(eng):
+        S.set_engine(eng)
+        cls = K.op4class()
+        R.RANGE_OBLS.clear()
+        import pyyeti.nastran.op4 as m
+        g2 = dict(K._C["g"])
+        g2["sp"] = FakeSP
+        astload.load(m._ensure_dp, hooks=("astype",), globs=g2)
+        ens = types.FunctionType(m._ensure_2d_dp.__code__, g2, "_ensure_2d_dp")
+        shape, pos = SPARSE_IN[case]
+        zs = [z3.Real("v%d" % k) for k in range(len(pos))]
+        data = np.empty(len(pos), dtype=object)
+        for k, z in enumerate(zs):
+            eng.assume(z3.And(z >= -10, z <= 10))
+            data[k] = S.SymR(z)
+        info = dict(layout=layout, case=case)
+        w = cls()
+        fh = R.SymFile()
+        try:
+            mt = ens(FakeCOO(shape, [p_[0] for p_ in pos], [p_[1] for p_ in pos], data))
+            if layout == "bigmat":
+                w._write_binary_bigmat(fh, "mat0", mt, "<", 2)
+            else:
+                w._write_binary_nonbigmat(fh, "mat0", mt, "<", 2)
+            o, fr = K.new_reader(fh.fields)
+            rn, rm, rf, rt = o.listload("<stream>", sparse=True)
+        except E.Inconclusive:
+            raise
+        except R.StreamViolation as ex:
+            return [E.Obl("reader stays on the writer's field boundaries: %s" % ex, False, info=info)]
+        except Exception as ex:
+            import traceback
+            return [E.Obl("write/read of a sparse input raises %r (%s)" % (ex, traceback.format_exc()[-300:]), False, info=info)]
+        eng.tag("sparse-input")
+        obls = [E.Obl(lbl, c, info=info) for lbl, c in R.RANGE_OBLS]
+        _, r_, c_, (I, J, V) = rm[0]
+        obls.append(E.Obl("sparse input: shape read back", (r_, c_) == shape, info=info))
+        got = {}
+        for i, j, v in zip(I, J, V):
+            key = (int(i) if not isinstance(i, S.SymR) else eng.fork_int(i.e), int(j))
+            got[key] = got[key] + [v] if key in got else [v]
+        obls.append(E.Obl("sparse input: every position is stored once (%s)" % sorted(got), all(len(v) == 1 for v in got.values()), info=info))
+        for i in range(shape[0]):
+            for j in range(shape[1]):
+                want = z3.Sum([z for z, p_ in zip(zs, pos) if p_ == (i, j)] + [z3.RealVal(0)])
+                obls.append(E.Obl("sparse input: entry (%d,%d) read back is the sum of the triplets given for it" % (i, j), S.lift(got.get((i, j), [0.0])[-1]) == want, info=info))
+        return obls
+    return fn
+
+
+def replay_sparsein(p):
+    import os
+    import tempfile
+    import shutil
+    import scipy.sparse as sps
+    from pyyeti.nastran import op4
+    shape, pos = SPARSE_IN[p["case"]]
+    mdl = p["model"]
+    vals = [float(Fraction(mdl.get("v%d" % k, k + 1) or 0)) or float(k + 1) for k in range(len(pos))]
+    A = sps.coo_matrix((vals, ([q[0] for q in pos], [q[1] for q in pos])), shape=shape)
+    d = tempfile.mkdtemp(prefix="verif-c04-")
+    try:
+        path = os.path.join(d, "t.op4")
+        op4.write(path, ["a"], [A], sparse=p["layout"])
+        back = op4.read(path, sparse=False)["a"]
+        if back.shape != A.shape or not np.array_equal(back, A.toarray()):
+            return True, "op4.write/read of coo_matrix(%s at %s) gives %s, the matrix is %s" % (vals, pos, back.tolist(), A.toarray().tolist())
+        return False, "sparse input round trip fine"
+    finally:
+        shutil.rmtree(d, ignore_errors=True)
+
+
+REPLAY = {"sparsein": replay_sparsein, "layout": replay_layout, "roundtrip": replay_roundtrip, "IS": replay_is, "colstats": replay_colstats, "ascii": replay_ascii}
 
 
 def job(kind, *args, split_depth=None, roots=None):
     eng = E.Engine()
     eng.fast_ms = 300
-    fn = dict(roundtrip=roundtrip_fn, IS=is_fn, colstats=colstats_fn, layout=layout_fn)[kind](*args)
+    fn = dict(roundtrip=roundtrip_fn, IS=is_fn, colstats=colstats_fn, layout=layout_fn, sparsein=sparsein_fn)[kind](*args)
     res = eng.explore(fn, max_cex=3, roots=roots, split_depth=split_depth)
     res["note"] = "%s %s" % (kind, str(args)[:100])
     if split_depth is not None and res["roots"]:
@@ -562,6 +675,9 @@ def jobs(tier, seed):
             out.append(H.Job("IS-%s-%d" % ("bin" if binary else "asc", mult), job, "IS", binary, mult, weight=5))
     for binary in (True, False):
         out.append(H.Job("layout-%s" % ("bin" if binary else "asc"), job, "layout", binary, weight=2))
+    for layout in ("bigmat", "nonbigmat"):
+        for case in range(len(SPARSE_IN)):
+            out.append(H.Job("sparse-input-%s-%d" % (layout, case), job, "sparsein", layout, case, weight=10))
     for n in range(1, (6 if q else 10) + 1):
         out.append(H.Job("colstats-%d" % n, job, "colstats", n, 11, split_depth=6 if n > 5 else None, weight=2 ** n))
     decs = [-300, -101, -100, -99, -10, -1, 0, 1, 7, 98, 99, 100, 101, 300] if q else list(range(-310, 309, 7)) + [-101, -100, -99, 98, 99, 100, 101]
@@ -575,5 +691,5 @@ def extra_coverage(results):
     import pyyeti.nastran.op4 as m
     o = m.OP4
     fns = [o._write_binary, o._write_binary_header, o._write_binary_sparse, o._write_binary_bigmat, o._write_binary_nonbigmat, o._sparse_col_stats,
-           o._get_header_info, o._write_ascii_header, o._write_ascii_nonbigmat, o._get_funcs, o._loadop4_binary, o._rd_dense_binary, o._rd_bigmat_binary, o._rd_nonbigmat_binary, o.listload, o.dir]
+           o._sparse_sort, o._get_header_info, o._write_ascii_header, o._write_ascii_nonbigmat, o._get_funcs, o._loadop4_binary, o._rd_dense_binary, o._rd_bigmat_binary, o._rd_nonbigmat_binary, o.listload, o.dir]
     return dict(functions_encoded=[H.fn_id(getattr(f, "__func__", f)) for f in fns], ast_hook_hits={"%s:%s" % k: v for k, v in astload.HITS.items()})
